@@ -22,6 +22,10 @@
 (*   I3 a session that is replaced (new metadata) or ends without a        *)
 (*      Completion discards its open part                                  *)
 (*   I4 the sender reports success only on a positive SyncResult           *)
+(* (the pinned tree does none of the four: it installs whatever the open   *)
+(* handler holds on Completion and on a session switch, advances past a    *)
+(* rejected chunk in reordering mode, and turns a negative or missing      *)
+(* result into success; fixes/C17-completeness.patch implements I1-I4)     *)
 (* Deliberate properties of the code that are kept as they are: the sender *)
 (* is stop-and-wait and takes the next response as the answer to the chunk *)
 (* it is waiting for (it never looks at the index in the response); a      *)
